@@ -39,6 +39,8 @@ pub struct Rig {
   pub probes: Vec<Probe>,
   pub drain: Rc<dyn Fn()>,
   pub peek: Option<Rc<dyn Fn() -> Val>>,
+  /// further named operations a thread may perform (subject-level unsubscribe, len(), executor steps ...)
+  pub extra: Vec<(&'static str, Rc<dyn Fn()>)>,
 }
 
 pub fn build(p: Pipe) -> Rig {
@@ -78,6 +80,24 @@ pub fn build(p: Pipe) -> Rig {
       let _u2 = subj.clone().actual_subscribe(p2);
       let s1 = subj.clone();
       let s2 = subj.clone();
+      let (s3, s4, s5) = (subj.clone(), subj.clone(), subj.clone());
+      let p0 = probe;
+      let p1 = p2;
+      let subject_extras: Vec<(&'static str, Rc<dyn Fn()>)> = vec![
+        ("subject.unsubscribe()", Rc::new(move || {
+          s3.clone().unsubscribe();
+          p0.forbid("delivery-after-subject-unsubscribe");
+          p1.forbid("delivery-after-subject-unsubscribe");
+        })),
+        ("subject.len()/is_empty()", Rc::new(move || {
+          let _ = s4.len();
+          let _ = s4.is_empty();
+        })),
+        ("subject.retain()", Rc::new(move || {
+          let mut s = s5.clone();
+          s.retain();
+        })),
+      ];
       Rig {
         feed: Rc::new(move |_i, ev| {
           let mut s = s1.clone();
@@ -95,6 +115,7 @@ pub fn build(p: Pipe) -> Rig {
         probes: vec![probe, p2],
         drain: nodrain,
         peek: None,
+        extra: subject_extras,
       }
     }
     Pipe::Behavior => {
@@ -120,6 +141,7 @@ pub fn build(p: Pipe) -> Rig {
         probes: vec![probe, p2],
         drain: nodrain,
         peek: Some(Rc::new(move || Behavior::<Val, Val>::peek(&b3))),
+        extra: vec![],
       }
     }
     Pipe::Merge | Pipe::Zip | Pipe::CombineLatest | Pipe::TakeUntil => {
@@ -130,7 +152,7 @@ pub fn build(p: Pipe) -> Rig {
         _ => Op2::TakeUntil,
       };
       keep!(subscribe_t(cat::build2_t(op, cat::hot_tagged_t(0), cat::hot_tagged_t(1)), probe));
-      Rig { feed: feed_tags(vec![0, 1]), ninputs: 2, unsub, subscribe: None, probes: vec![probe], drain: nodrain, peek: None }
+      Rig { feed: feed_tags(vec![0, 1]), ninputs: 2, unsub, subscribe: None, probes: vec![probe], drain: nodrain, peek: None, extra: vec![] }
     }
     Pipe::MergeAll => {
       // outer emits two hot inners up front; the threads then drive the inners
@@ -139,7 +161,7 @@ pub fn build(p: Pipe) -> Rig {
       let mut h = cat::handle_t(9);
       h.next(Val::c(0));
       h.next(Val::c(1));
-      Rig { feed: feed_tags(vec![0, 1]), ninputs: 2, unsub, subscribe: None, probes: vec![probe], drain: nodrain, peek: None }
+      Rig { feed: feed_tags(vec![0, 1]), ninputs: 2, unsub, subscribe: None, probes: vec![probe], drain: nodrain, peek: None, extra: vec![] }
     }
     Pipe::Share => {
       let shared = cat::hot_tagged_t(0).share_threads();
@@ -157,15 +179,16 @@ pub fn build(p: Pipe) -> Rig {
         probes: vec![probe, p2],
         drain: nodrain,
         peek: None,
+        extra: vec![],
       }
     }
     Pipe::ObserveOn => {
       keep!(cat::hot_tagged_t(0).observe_on_threads(world::any_sched()).actual_subscribe(probe));
-      Rig { feed: feed_tags(vec![0]), ninputs: 1, unsub, subscribe: None, probes: vec![probe], drain: sched_drain, peek: None }
+      Rig { feed: feed_tags(vec![0]), ninputs: 1, unsub, subscribe: None, probes: vec![probe], drain: sched_drain, peek: None, extra: vec![] }
     }
     Pipe::Delay => {
       keep!(cat::hot_tagged_t(0).delay_threads(world::units(1), world::any_sched()).actual_subscribe(probe));
-      Rig { feed: feed_tags(vec![0]), ninputs: 1, unsub, subscribe: None, probes: vec![probe], drain: sched_drain, peek: None }
+      Rig { feed: feed_tags(vec![0]), ninputs: 1, unsub, subscribe: None, probes: vec![probe], drain: sched_drain, peek: None, extra: vec![] }
     }
     Pipe::Finalize => {
       let fin = move || {
@@ -175,9 +198,102 @@ pub fn build(p: Pipe) -> Rig {
         }
       };
       keep!(cat::hot_tagged_t(0).finalize_threads(fin).actual_subscribe(probe));
-      Rig { feed: feed_tags(vec![0]), ninputs: 1, unsub, subscribe: None, probes: vec![probe], drain: nodrain, peek: None }
+      Rig { feed: feed_tags(vec![0]), ninputs: 1, unsub, subscribe: None, probes: vec![probe], drain: nodrain, peek: None, extra: vec![] }
     }
   }
+}
+
+/// Pipelines whose deliveries happen inside scheduled tasks; one logical thread is the
+/// pool's worker (it polls the tasks), the other one unsubscribes.
+pub fn build_sched(which: u32) -> Rig {
+  let probe = fresh_probe();
+  let unsub: Rc<RefCell<Option<Box<dyn FnOnce()>>>> = Rc::new(RefCell::new(None));
+  macro_rules! keep {
+    ($u:expr) => {{
+      let u = $u;
+      *unsub.borrow_mut() = Some(Box::new(move || u.unsubscribe()));
+    }};
+  }
+  let items = vec![Val::c(1), Val::c(2), Val::c(3)];
+  let sd = world::any_sched();
+  let ninputs;
+  match which {
+    0 => {
+      keep!(cat::cold_t(items, model::Tm::Complete, 0).subscribe_on(sd).actual_subscribe(probe));
+      ninputs = 0;
+    }
+    1 => {
+      keep!(cat::cold_t(items, model::Tm::Complete, 0).delay_subscription(world::units(1), sd).actual_subscribe(probe));
+      ninputs = 0;
+    }
+    2 => {
+      keep!(cat::hot_tagged_t(0).observe_on_threads(sd).actual_subscribe(probe));
+      let mut h = cat::handle_t(0);
+      h.next(Val::c(1));
+      h.next(Val::c(2));
+      ninputs = 1;
+    }
+    3 => {
+      keep!(cat::hot_tagged_t(0).delay_threads(world::units(1), sd).actual_subscribe(probe));
+      let mut h = cat::handle_t(0);
+      h.next(Val::c(1));
+      h.next(Val::c(2));
+      ninputs = 1;
+    }
+    _ => {
+      keep!(observable::interval(world::units(1), sd).map(|n: usize| Val::c(n as i64)).actual_subscribe(probe));
+      ninputs = 0;
+    }
+  }
+  let step: Rc<dyn Fn()> = Rc::new(|| {
+    world::run_fifo_bounded(8);
+  });
+  let tick: Rc<dyn Fn()> = Rc::new(|| {
+    world::advance(1);
+    world::run_fifo_bounded(8);
+  });
+  Rig {
+    feed: Rc::new(move |i: usize, ev: &Ev| {
+      if let Some(mut h) = cat::handle_t_nth(i, 0) {
+        feed_t(&mut h, ev);
+      }
+    }),
+    ninputs,
+    unsub,
+    subscribe: None,
+    probes: vec![probe],
+    drain: Rc::new(|| {}),
+    peek: None,
+    extra: vec![("worker: poll ready tasks", step), ("worker: clock +1, poll ready tasks", tick)],
+  }
+}
+
+fn c02_threads_sched() {
+  let which = e::choose(5);
+  let rig = build_sched(which);
+  world::threads_enable(2, 3);
+  let late: Rc<RefCell<Vec<Probe>>> = Rc::new(RefCell::new(vec![]));
+  let name = ["subscribe_on(cold)", "delay_subscription(cold)", "observe_on_threads", "delay_threads", "interval"][which as usize];
+  let key: &'static str = crate::h_sched::leak_key(format!("callback-started-after-unsubscribe-returned/{}", name));
+  // T0 = the pool's worker: three executor steps; T1 = the unsubscribing thread
+  let mut desc = vec![];
+  for _ in 0..3 {
+    let i = e::choose(2) as usize;
+    desc.push(format!("T0:{}", rig.extra[i].0));
+    world::thread_push(0, make_closure(&rig, TOp::Extra(i), late.clone(), key));
+  }
+  desc.push("T1:unsubscribe()".to_string());
+  world::thread_push(1, make_closure(&rig, TOp::Unsub, late.clone(), key));
+  e::note(format!("{} ; {}", name, desc.join(" | ")));
+  world::run_threads();
+  world::hooks_disable();
+  world::w(|w| w.threads.enabled = false);
+  // afterwards: everything still scheduled is drained, nothing may reach the subscriber
+  for _ in 0..4 {
+    world::run_fifo_bounded(16);
+    world::advance(1);
+  }
+  e::cover("c02-threads-sched-path-complete");
 }
 
 #[derive(Clone, Debug)]
@@ -185,11 +301,15 @@ enum TOp {
   Feed(usize, Ev),
   Unsub,
   Subscribe,
+  Extra(usize),
 }
 
 fn draw_op(rig: &Rig, allow_unsub: bool) -> TOp {
   let extra = allow_unsub as u32 + rig.subscribe.is_some() as u32;
-  let c = e::choose(rig.ninputs as u32 * 3 + extra);
+  let c = e::choose(rig.ninputs as u32 * 3 + extra + rig.extra.len() as u32);
+  if c >= rig.ninputs as u32 * 3 + extra {
+    return TOp::Extra((c - rig.ninputs as u32 * 3 - extra) as usize);
+  }
   if c < rig.ninputs as u32 * 3 {
     let i = (c / 3) as usize;
     let ev = match c % 3 {
@@ -210,6 +330,7 @@ fn show_op(o: &TOp) -> String {
     TOp::Feed(i, ev) => format!("in{}.{}", i, world::show_ev(ev)),
     TOp::Unsub => "unsubscribe()".to_string(),
     TOp::Subscribe => "subscribe(new)".to_string(),
+    TOp::Extra(i) => format!("extra#{}", i),
   }
 }
 
@@ -218,7 +339,9 @@ fn make_closure(rig: &Rig, op: TOp, late: Rc<RefCell<Vec<Probe>>>, key_after_uns
   let unsub = rig.unsub.clone();
   let subscribe = rig.subscribe.clone();
   let first = rig.probes[0];
+  let extras: Vec<Rc<dyn Fn()>> = rig.extra.iter().map(|x| x.1.clone()).collect();
   Box::new(move || match op {
+    TOp::Extra(i) => (extras[i])(),
     TOp::Feed(i, ev) => feed(i, &ev),
     TOp::Unsub => {
       let u = unsub.borrow_mut().take();
@@ -256,6 +379,9 @@ fn c10_preempt(pipes: &[Pipe], nops: usize, max_preempt: u32) {
   }
   e::note(format!("{:?}_threads ; {}", p, desc.join(" | ")));
   world::run_threads();
+  if let Some((a, b)) = world::lock_order_cycle() {
+    e::fail(&format!("lock-order-cycle/{:?}", p), || format!("one thread acquires lock #{} while holding #{}, another acquires #{} while holding #{}: they can deadlock", b, a, a, b));
+  }
   world::hooks_disable();
   world::w(|w| w.threads.enabled = false);
   (rig.drain)();
@@ -336,6 +462,7 @@ pub fn harnesses() -> Vec<HarnessDef> {
   add("c10_lockset_order", vec!["C10"], "Eraser lockset on every subscriber callback + lock-order cycle detection between two logical threads' scripts (sufficient conditions that cover all interleavings of the scripts, not only explored ones)", |t| format!("9 thread-safe pipelines; 2 threads x {} operations (next/complete/error on every input, unsubscribe, subscribe)", if t { 3 } else { 2 }), Box::new(|t| c10_lockset_order(if t { 3 } else { 2 })), 2_000_000, 40_000_000);
   add("c10_preempt", vec!["C10"], "two logical threads with nested pre-emption at every MutArc lock acquisition, inside callbacks and at yield points: overlapping callbacks, deadlock (lock cycle), self-deadlock, panic, common delivery order", |t| format!("9 thread-safe pipelines; 2 threads x {} operations; <= {} pre-emptions, nesting depth 2", if t { 2 } else { 2 }, if t { 3 } else { 2 }), Box::new(|t| c10_preempt(C10_PIPES, 2, if t { 3 } else { 2 })), 3_000_000, 40_000_000);
   add("c02_threads", vec!["C02"], "an unsubscribing logical thread racing an emitting one at every lock acquisition: no callback may start after unsubscribe() returned", |_| "9 thread-safe pipelines + finalize_threads; 2 threads x 2 operations".to_string(), Box::new(|_| c10_preempt(&[Pipe::Subject, Pipe::Merge, Pipe::Zip, Pipe::CombineLatest, Pipe::TakeUntil, Pipe::MergeAll, Pipe::Share, Pipe::ObserveOn, Pipe::Delay, Pipe::Finalize], 2, 2)), 3_000_000, 40_000_000);
+  add("c02_threads_sched", vec!["C02", "C19"], "a pool worker thread polling scheduled tasks (subscribe_on / delay_subscription over a synchronous source, observe_on_threads, delay_threads, interval) racing an unsubscribing thread at every lock acquisition and inside callbacks", |_| "5 pipelines; worker: 3 executor steps; 1 unsubscribe; <= 3 pre-emptions".to_string(), Box::new(|_| c02_threads_sched()), 3_000_000, 40_000_000);
   add("c06_threads", vec!["C06"], "SubjectThreads under two logical threads: every subscriber's log stays well-formed and all subscribers agree on the order", |t| format!("2 threads x {} operations", if t { 3 } else { 2 }), Box::new(|t| c10_preempt(&[Pipe::Subject], if t { 3 } else { 2 }, 3)), 3_000_000, 40_000_000);
   add("c12_threads", vec!["C12"], "BehaviorSubject over SubjectThreads: two producers and a late subscriber; peek() = last value in the common delivery order", |_| "2 threads x 2 operations".to_string(), Box::new(|_| c10_preempt(&[Pipe::Behavior], 2, 3)), 3_000_000, 40_000_000);
   add("c15_threads", vec!["C15"], "finalize_threads: a terminating thread racing an unsubscribing thread: exactly once", |_| "2 threads x 2 operations".to_string(), Box::new(|_| c10_preempt(&[Pipe::Finalize], 2, 3)), 3_000_000, 40_000_000);
